@@ -240,9 +240,62 @@ def failing_cli_with_default_config(ctx, i, rng):
         ctx.violation("auto_cli", "later-cli-influenced-by-an-earlier-failed-cli", dict(failed=o.brief(), later=o2.brief()))
 
 
+FACTORY_SRC = """
+CALLS = []
+def make(kind):
+    if kind == 0:
+        def cmd(size: int = 1, tag: str = "a"):
+            CALLS.append(("k0", dict(size=size, tag=tag)))
+            return ("k0", size, tag)
+    elif kind == 1:
+        def cmd(size: float = 0.5, rate: float = 2.0, *, deep: bool = False):
+            CALLS.append(("k1", dict(size=size, rate=rate, deep=deep)))
+            return ("k1", size, rate, deep)
+    else:
+        def cmd(tag: int = 7):
+            CALLS.append(("k2", dict(tag=tag)))
+            return ("k2", tag)
+    return cmd
+"""
+
+
+def same_named_functions(ctx, i, rng):
+    """Commands made by a factory: distinct function objects with the same module and qualified name but different
+    signatures, given to auto_cli one after the other in one process. Each call binds the parameters of its own function."""
+    o = call(programs.write_module, ctx.workdir, FACTORY_SRC, "c12fac")
+    if not o.accepted:
+        ctx.inconclusive(f"factory module does not import: {o.brief()}")
+        return
+    mod, path = o.value
+    try:
+        order = rng.sample([0, 1, 2], rng.choice([2, 3]))
+        runs = {
+            0: (["--size=4", "--tag=zz"], ("k0", 4, "zz")),
+            1: (["--size=1.5", "--deep=true"], ("k1", 1.5, 2.0, True)),
+            2: (["--tag=12"], ("k2", 12)),
+        }
+        for n, kind in enumerate(order):
+            argv, exp = runs[kind]
+            mod.CALLS.clear()
+            oc = call(auto_cli, mod.make(kind), args=list(argv), exit_on_error=False)
+            ctx.count("mon.same_named_functions")
+            ctx.evaluation(("same-named", tuple(order), n))
+            w = dict(shape="factory-made-functions", order=order, position=n, argv=argv)
+            if not oc.accepted:
+                ctx.violation("auto_cli", f"valid-invocation-failed/function-sharing-its-qualified-name-with-an-earlier-one/{oc.exc_type}", dict(w, outcome=oc.brief()))
+                return
+            if oc.value != exp or type(oc.value[1]) is not type(exp[1]) or len(mod.CALLS) != 1:
+                ctx.violation("auto_cli", "wrong-binding/function-sharing-its-qualified-name-with-an-earlier-one", dict(w, expected=exp, got=short(oc.value), calls=short(mod.CALLS)))
+                return
+    finally:
+        programs.forget(mod, path)
+
+
 def case(ctx, i, rng):
     if i % 9 == 4:
         failing_cli_with_default_config(ctx, i, rng)
+    if i % 9 == 7:
+        same_named_functions(ctx, i, rng)
     kind, src, comps, entry = gen_program(rng)
     if kind == "functions_dict":
         # parameters of dict functions: re-read from source is unnecessary; regenerate deterministic small signatures
